@@ -88,6 +88,10 @@ def enumerate_faults(df, roots):
             v = df[c].iloc[i]
             nv = (not v) if df[c].dtype.kind == "b" else (v + 1)
             F.append((f"hh_level_varies:{c}", f"row{i}", setval(c, i, nv)))
+            if df[c].dtype.kind == "f":
+                # one member's value missing / different by one ulp: still not one value per household
+                F.append((f"hh_level_varies_missing_value:{c}", f"row{i}", setval(c, i, np.nan)))
+                F.append((f"hh_level_varies_by_one_ulp:{c}", f"row{i}", setval(c, i, float(np.nextafter(v, np.inf)))))
     for i in range(n):
         if df["p_id_ehepartner"].iloc[i] >= 0:
             F.append(("spouses_disagree:gemeinsam_veranlagt", f"row{i}", setval("gemeinsam_veranlagt", i, not df["gemeinsam_veranlagt"].iloc[i])))
@@ -144,7 +148,7 @@ def _faults(item):
     mine = [f for i, f in enumerate(F) if i % item["chunks"] == item["chunk"]]
     if item["tier"] == "quick":
         # every class and column, a deterministic third of the row positions
-        mine = [f for j, f in enumerate(mine) if (not f[1].split(":")[-1].startswith("row")) or j % 3 == 0 or "pointer" in f[0] or "p_id" in f[0] or "hh_level" in f[0] or "spouses" in f[0]]
+        mine = [f for j, f in enumerate(mine) if (not f[1].split(":")[-1].startswith("row")) or j % 3 == 0 or "pointer" in f[0] or "p_id" in f[0] or f[0].startswith("hh_level_varies:") or "spouses" in f[0]]
     for cls, pos, mut in mine:
         try:
             data = mut(df)
